@@ -190,7 +190,9 @@ def worker(ctx, job):
                 # the destination already exists: as an earlier extraction of the same entry (a hard link to the same
                 # content) or as an unrelated file
                 cpath_ = os.path.join(real_cache, ref.content_rel(sri(OLD)))
-                if job["dest_exists"] == "same-content-link" and os.path.isfile(cpath_):
+                if job["dest_exists"] == "directory":
+                    os.makedirs(dest)      # the destination names an existing directory: nothing may appear in it, beside it or elsewhere
+                elif job["dest_exists"] == "same-content-link" and os.path.isfile(cpath_):
                     os.link(cpath_, dest)
                 else:
                     with open(dest, "wb") as fh:
@@ -337,6 +339,8 @@ def main(tier, seed=0):
         jobs.append({"flavour": flavour, "side": side, "temp": "index-only", "rootform": "abs", "ops": ["list", "clear", "index_ls"], "keys": []})
         for de in ("same-content-link", "other-file"):
             jobs.append({"flavour": flavour, "side": side, "temp": "warm", "rootform": "abs", "ops": sorted(EXTRACT), "keys": keys[:2], "dest_exists": de})
+        pathy = [k for k in tables.KEYS_HOSTILE if ("/" in k or ".." in k) and len(k) < 200][:6]
+        jobs.append({"flavour": flavour, "side": side, "temp": "warm", "rootform": "abs", "ops": sorted(EXTRACT), "keys": pathy, "dest_exists": "directory"})
         jobs.append({"flavour": flavour, "side": side, "temp": "tmp-blocked", "rootform": "abs", "ops": ["write", "write_with_algo", "writer", "writer_dropped", "writer_create", "link_to"], "keys": keys[:3]})
         jobs.append({"flavour": flavour, "side": side, "temp": "tmp-blocked", "rootform": "abs", "ops": ["write_hash", "link_to_hash", "list", "read_hash"], "keys": []})
         for dmg in ("damaged-content", "truncated-content"):
